@@ -40,6 +40,9 @@ type compSpec struct {
 	Runnable bool   `json:"runnable,omitempty"`
 	Mark     string `json:"mark,omitempty"`      // "", "A" or "B": marker interface implemented
 	CloseErr bool   `json:"close_err,omitempty"` // Close returns an error (runnable only)
+	// Shape (plain components only): "closer" = the type also has a Close(ctx) error method, "runner" = it also has a
+	// Run(ctx) error method; neither is a runnable component (that takes both), so the container may call neither
+	Shape string `json:"shape,omitempty"`
 }
 
 type failSpec struct {
@@ -74,6 +77,9 @@ func (cs caseT) String() string {
 				sb.WriteString(":P")
 			}
 			sb.WriteString(s.Mark)
+			if s.Shape != "" {
+				sb.WriteString("+" + s.Shape)
+			}
 			if s.CloseErr {
 				sb.WriteString("!")
 			}
@@ -244,6 +250,15 @@ type (
 	runCB   struct{ runPart }
 )
 
+// plain components that happen to have one of the two methods of a runnable component
+type (
+	plainCloser struct{ base }
+	plainRunner struct{ base }
+)
+
+func (c *plainCloser) Close(ctx context.Context) error { return c.h.onClose(&c.base) }
+func (c *plainRunner) Run(ctx context.Context) error   { return c.h.onRun(&c.base) }
+
 func (c *plainCA) MarkA() *base { return &c.base }
 func (c *plainCB) MarkB() *base { return &c.base }
 func (c *runCA) MarkA() *base   { return &c.base }
@@ -251,6 +266,10 @@ func (c *runCB) MarkB() *base   { return &c.base }
 
 func newComp(b base) harnessComp {
 	switch {
+	case !b.spec.Runnable && b.spec.Shape == "closer":
+		return &plainCloser{b}
+	case !b.spec.Runnable && b.spec.Shape == "runner":
+		return &plainRunner{b}
 	case !b.spec.Runnable && b.spec.Mark == "":
 		return &plainC{b}
 	case !b.spec.Runnable && b.spec.Mark == "A":
@@ -813,6 +832,36 @@ func flatCases(n int, emit func(caseT)) {
 	}
 }
 
+// shapedCases: part A2 — one container, n components of kind plain | runnable | plain with a Close method | plain with
+// a Run method (at least one of the last two, the rest is part A), every failure point.
+func shapedCases(n int, emit func(caseT)) {
+	total := 1
+	for i := 0; i < n; i++ {
+		total *= 4
+	}
+	for code := 0; code < total; code++ {
+		comps := make([]compSpec, n)
+		shaped := false
+		for i, k := 0, code; i < n; i, k = i+1, k/4 {
+			comps[i] = compSpec{Name: fmt.Sprintf("c%d", i)}
+			switch k % 4 {
+			case 1:
+				comps[i].Runnable = true
+			case 2:
+				comps[i].Shape, shaped = "closer", true
+			case 3:
+				comps[i].Shape, shaped = "runner", true
+			}
+		}
+		if !shaped {
+			continue
+		}
+		for _, f := range failPoints(0, comps) {
+			emit(caseT{Levels: [][]compSpec{comps}, Fail: f})
+		}
+	}
+}
+
 // levelLists: every ordered list of at most max components with distinct names from names, every kind and mark.
 func levelLists(names, marks []string, max int) [][]compSpec {
 	var out [][]compSpec
@@ -861,6 +910,7 @@ func TestCheck(t *testing.T) {
 		Level: "exploration",
 		Rule: "exhaustive: (A) one real app.App with every list of 0..N components (quick N=4, thorough N=5), every plain/runnable mix, " +
 			"every single failure point {none, Init of i, Run of runnable i} and every subset of runnable components whose Close returns an error; " +
+			"(A2) the same with lists of 1..N-1 components of kind plain | runnable | plain that also has a Close(ctx) method | plain that also has a Run(ctx) method (neither is runnable: no Run, no Close expected); " +
 			"(B) every chain root>child and root>child>grandchild (ChildApp) whose containers hold every ordered list of <=K components (depth 1: K=3 thorough / 2 quick, depth 2: K=2) " +
 			"with names from {x,y,z} / {x,y} (shadowing across levels), kind plain|runnable and marker interface none|A|B (quick: none|A), " +
 			"with every single failure point of the deepest container; every component looks up every name (plus an unregistered one) by Component/MustComponent " +
@@ -920,8 +970,18 @@ func body(c *vk.Ctx) {
 			})
 		})
 	}
+	shapedN := 0
+	for n := 1; n <= maxFlat-1; n++ {
+		bubble(func() {
+			shapedCases(n, func(cs caseT) {
+				shapedN++
+				one(c, t, cs, wA)
+			})
+		})
+	}
 	t.addLookups(wA.ls)
 	c.Bound("flat_cases", flatN)
+	c.Bound("flat_cases_with_half_runnable_shapes", shapedN)
 
 	// ---- part B (nested containers), parallel over the root container's list; a batch = one bubble
 	marks := vk.Pick(c, []string{"", "A"}, []string{"", "A", "B"})
